@@ -133,6 +133,21 @@ func (r *Relay) FreezeReads(id string, on bool) {
 	r.mu.Unlock()
 }
 
+// Inject appends a message to a mailbox as if some writer had sent it (a party
+// in control of the relay can do that). It reports whether the box exists.
+func (r *Relay) Inject(id string, msg []byte) bool {
+	r.mu.Lock()
+	defer r.mu.Unlock()
+	b, ok := r.boxes[id]
+	if !ok || b.deleted {
+		return false
+	}
+	b.q = append(b.q, qmsg{b: append([]byte{}, msg...), at: time.Now()})
+	r.logf("inject", id, "")
+	kick(b.wake)
+	return true
+}
+
 // Boxes returns the ids of the existing boxes.
 func (r *Relay) Boxes() []string {
 	r.mu.Lock()
@@ -212,6 +227,11 @@ func (s *streamStub) RecvMsg(m interface{}) error  { return fmt.Errorf("not supp
 func (r *Relay) SendStream(ctx context.Context, _ ...grpc.CallOption) (hashmailrpc.HashMail_SendStreamClient, error) {
 	if a := r.fault("sendstream", "", 0, 0); a.Fail != nil {
 		return nil, a.Fail
+	}
+	// as grpc.ClientConn.NewStream: a context that is already done fails
+	// the call at once
+	if err := ctx.Err(); err != nil {
+		return nil, status.FromContextError(err).Err()
 	}
 	s := &sendStream{streamStub: streamStub{ctx: ctx}, r: r}
 	return s, nil
@@ -348,6 +368,9 @@ func (r *Relay) RecvStream(ctx context.Context, in *hashmailrpc.CipherBoxDesc, _
 	id := hex.EncodeToString(in.GetStreamId())
 	if a := r.fault("recvstream", id, 0, 0); a.Fail != nil {
 		return nil, a.Fail
+	}
+	if err := ctx.Err(); err != nil {
+		return nil, status.FromContextError(err).Err()
 	}
 	return &recvStream{streamStub: streamStub{ctx: ctx}, r: r, id: id, raw: append([]byte{}, in.GetStreamId()...)}, nil
 }
